@@ -124,6 +124,7 @@ func WriteByID(w io.Writer, id int, ctx *Ctx) (err error) {
 
 // Internal renderer.
 func write(w io.Writer, tpl *Tpl, ctx *Ctx) (err error) {
+	ctx.wd++
 	// Walk over root nodes in tree and evaluate them.
 	for i := 0; i < len(tpl.tree.nodes); i++ {
 		n := &tpl.tree.nodes[i]
@@ -133,13 +134,17 @@ func write(w io.Writer, tpl *Tpl, ctx *Ctx) (err error) {
 				// Interrupt logic.
 				err = nil
 			}
-			return
+			break
 		}
 	}
+	ctx.wd--
 
-	// Call defer functions consecutively.
+	// Call defer functions consecutively after the outermost template has finished.
 	// First failed function will stop that process and return error encountered.
-	err = ctx.defer_()
+	if err == nil && ctx.wd == 0 {
+		err = ctx.defer_()
+		ctx.dfr = ctx.dfr[:0]
+	}
 
 	return
 }
